@@ -159,6 +159,8 @@ class G(object):
                 it['term'] = self.no_bracket(self.inlines(0, False, 1))
             elif r.random() < 0.08:
                 it['term'] = self.no_bracket(self.inlines(0, False, 1))      # \item[opt]
+                if r.random() < 0.35:
+                    it['term'] = []          # \item[]: an explicit, empty label (the usual way to write an unnumbered continuation line)
             if self.o['labels'] and kind == 'enumerate' and 'term' not in it and r.random() < 0.2:
                 it['label'] = self.newlabel('it')
             elif self.o.get('term_labels') and 'term' in it and r.random() < self.o['term_labels']:
@@ -294,7 +296,9 @@ class G(object):
         r = self.r
         o = self.o
         self.nsec += 1
-        node = {'t': 'sec', 'level': level, 'star': o['star'] and r.random() < 0.15, 'title': self.inlines(1 if o['fonts'] else 0, False, r.choice([1, 2]), o['math'], False),
+        # (a footnote in a heading only where a check asks for it: the title then goes into the contents as well)
+        node = {'t': 'sec', 'level': level, 'star': o['star'] and r.random() < 0.15,
+                'title': self.inlines(1 if o['fonts'] else 0, bool(o.get('title_footnotes')) and r.random() < o['title_footnotes'], r.choice([1, 2, 3]) if o.get('title_footnotes') else r.choice([1, 2]), o['math'], False),
                 'c': self.blocks(depth, r.randint(0, 3)), 'subs': [], 'label': None, 'toc': None}
         if o.get('empty_titles') and r.random() < o['empty_titles']:
             # \section{}: a unit whose title has no text at all (it still is a unit, still gets its number and its file)
@@ -384,6 +388,8 @@ ADV_POOL = [
     # characters that Unicode normalization would replace (Kelvin and Ohm signs, a compatibility ideograph, a decomposed accent),
     # and a leaf that begins with a combining mark (it must not merge with the markup character before it)
     ('M\u212a\u2126\ufa19e\u0301', 'M\u212a\u2126\ufa19e\u0301'), ('\u0338M\u0338', '\u0338M\u0338'),
+    # Unicode's line and paragraph separators and an ideographic space inside a word: text, not line structure
+    ('M\u2028a\u2029b\u3000c', 'M\u2028a\u2029b\u3000c'),
 ]
 ADV_ON = [True]
 
